@@ -199,6 +199,13 @@ func vMatchFloat(where string, got *vrt.JVal, f float64, bits int) {
 				vrt.Assert(where+":float-bits", tb == bits && math.Float64bits(tv) == math.Float64bits(f))
 				return
 			}
+			if iv, ok := vrt.TokInt(c); ok {
+				// printed through the integer formatter: a decoder reads the digits back as this float
+				neg := len(got.Num) > 0 && got.Num[0] == '-'
+				back := float64(iv)
+				vrt.Assert(where+":float-bits", math.Float64bits(back) == math.Float64bits(f) && neg == (iv < 0))
+				return
+			}
 		}
 		p, err := strconv.ParseFloat(string(got.Num), bits)
 		vrt.Assert(where+":float-bits", err == nil && math.Float64bits(p) == math.Float64bits(f))
